@@ -338,6 +338,10 @@ entry("filter_le5", "λ5≤;F", 1, 0, m_filter(lambda x: x <= 5), needs="consec"
 entry("mod7_uniq", "7 % U", 1, 0, lambda s: (x % 7 for x in itertools.islice(s, 7)), needs="consec", out="num", first_only=True,
       last_only=True, max_n=7)
 entry("filter_le1", "λ1≤;F", 1, 0, m_filter(lambda x: x <= 1), needs="consec", out="num", first_only=True, last_only=True, max_n=1)
+# interleaving the source with an exhaustible transformation of itself: the items before the exhaustible side runs dry
+# must arrive without asking that side for one more (x0 f0 x1 f1 ... x4 f4 x5 = 11 items)
+entry("interleave_exhaustible", ": λ5≤;F Y", 1, 1, lambda s: (v for i, x in enumerate(itertools.islice(s, 6)) for v in ((x, x) if i < 5 else (x,))),
+      needs="consec", out="num", first_only=True, last_only=True, max_n=11)
 # a sparse head: the first item is far away, everything after it is dense (offsets must not be paid before they are due)
 entry("filter_gt50", "λ50>;F", 1, 50, m_filter(lambda x: x > 50), needs="consec", out="num", keeps=("inj", "consec"), first_only=True)
 # indexing by an INFINITE list of indices
@@ -460,7 +464,7 @@ class C14(core.Check):
     id = "C14"
     title = "Finite prefixes of infinite lists are computed lazily and terminate"
     tiers = {
-        "quick": dict(runs=60_000, batch=500, wall=80),
+        "quick": dict(runs=60_000, batch=150, wall=80),
         "thorough": dict(runs=450_000, batch=500, wall=840),
     }
     per_run_timeout = 60
@@ -476,7 +480,7 @@ class C14(core.Check):
         "density-sensitive transformations (filters, uniquify, remove, group) are only placed where the input stream "
         "keeps the property their bound needs",
     ]
-    rule = ("one run = a pipeline of 1-3 catalogued transformations (90 entries) applied by transpiled program text to an "
+    rule = ("one run = a pipeline of 1-3 catalogued transformations (91 entries) applied by transpiled program text to an "
             "instrumented infinite source, plus a demand schedule (index / first-n / stepping / resumption / two "
             "pipelines over `:`-copies pulled alternately / abandonment), n <= 40. distinct = distinct (pipeline(s), "
             "demand pattern, n); non-trivial = every run (each is judged on termination, pull bound and values).")
@@ -509,13 +513,15 @@ class C14(core.Check):
         rs = sub_rng(seed, self.id, run, "schedule")
         maxlen = rw.choice([1, 2, 3, 3])
         mode = rs.choice(["index", "firstn", "step", "resume", "two", "abandon", "index", "step", "elem_i", "slice_i",
-                          "forloop", "head_extract", "elem_i_swapped"])
+                          "forloop", "head_extract", "elem_i_swapped", "slice_strided", "slice_empty"])
         n = rs.choice([1, 2, 3, 5, 8, 13, 20, 30, 40]) if rs.random() < 0.5 else rs.randint(1, 40)
         if rs.random() < 0.08:
             n = rs.choice([17, 33, 64, 65, 101, 128, 130])  # size thresholds beyond the statement's n <= 40 (same bound)
         if mode in ("firstn", "slice_i") and rs.random() < 0.15:
             n = 0  # the empty prefix: nothing may be pulled beyond the bound for n = 0, and nothing may hang
         case = dict(mode=mode, n=n, a=self.gen_pipeline(rw, maxlen))
+        if mode == "slice_strided":
+            case["stride"] = rs.choice([2, 3, 4, 7])
         if mode == "resume":
             case["n1"] = rs.randint(1, n)
         if mode == "two":
@@ -534,7 +540,7 @@ class C14(core.Check):
         mode, n = case["mode"], case["n"]
         if not A or n < 0 or (n == 0 and mode not in ("firstn", "slice_i")) or not valid(A) or (B and not valid(B)):
             return dict(verdict=DISCARD, sig="invalid-chain", log=[], steps=0, hist=None)
-        if n > 40 and (mode not in ("index", "firstn", "elem_i", "elem_i_swapped", "slice_i", "step", "resume")
+        if n > 40 and (mode not in ("index", "firstn", "elem_i", "elem_i_swapped", "slice_i", "slice_strided", "step", "resume")
                        or any(CAT[x]["out"] in ("list", "mixed") or x in ("flatten", "map_sum") for x in A)):
             n = 40  # threshold sizes only where the work per item does not itself grow with n
         caps = [CAT[x]["max_n"] for x in A if CAT[x]["max_n"]]
@@ -552,6 +558,8 @@ class C14(core.Check):
             nb = min(nb, min(capsb))
         if mode == "two" and B:
             bound = max(bound_of(A, n), bound_of(B, nb))
+        elif mode == "slice_empty":
+            bound = bound_of(A, 0)
         else:
             bound = bound_of(A, n)
         budget = 4 * bound + 64
@@ -602,6 +610,13 @@ class C14(core.Check):
                     prog = prog + f" {n - 1} $ i"                    # ... with the number BELOW the list (b[a] overload)
                 elif mode == "slice_i":
                     prog = prog + f" ⟨0|{n}⟩ i"                      # the index element with a [start, stop] list
+                elif mode == "slice_strided":
+                    # [0, stop, stride] with the last selected index = n - 1: nothing beyond it may be touched
+                    st_ = case.get("stride", 2)
+                    last_ = ((n - 1) // st_) * st_
+                    prog = prog + f" ⟨0|{last_ + st_}|{st_}⟩ i"
+                elif mode == "slice_empty":
+                    prog = prog + f" ⟨{n + 2}|2⟩ i"                  # start beyond stop: an empty result, nothing to pull
                 elif mode == "forloop":
                     prog = prog + f" ( n ⅛ ¾ L {n} ≥ [ X ] )"        # step through a for loop, leave it with a break
                 elif mode == "head_extract":
@@ -627,7 +642,7 @@ class C14(core.Check):
                     gotB = item_list(resB, min(nb, 8))
                 else:
                     res = w.stack[-1] if w.stack else None
-                    if mode in ("elem_i", "elem_i_swapped", "slice_i", "forloop", "head_extract"):
+                    if mode in ("elem_i", "elem_i_swapped", "slice_i", "forloop", "head_extract", "slice_strided", "slice_empty"):
                         pulled = pulls[0]
                         k_ = min(n, 12) if mode == "head_extract" else n
                         if mode in ("elem_i", "elem_i_swapped"):
@@ -636,6 +651,16 @@ class C14(core.Check):
                             if isinstance(res, LL):
                                 res = res.listify()
                             got_items, want_items = [tm(x) for x in res], [norm_model(x) for x in model_of(A, n)]
+                        elif mode == "slice_strided":
+                            if isinstance(res, LL):
+                                res = res.listify()
+                            st_ = case.get("stride", 2)
+                            got_items = [tm(x) for x in res]
+                            want_items = [norm_model(x) for x in model_of(A, n)][::st_]
+                        elif mode == "slice_empty":
+                            if isinstance(res, LL):
+                                res = res.listify()
+                            got_items, want_items = [tm(x) for x in res], []
                         else:
                             got_items = [tm(x) for x in w.ctx.global_array]
                             want_items = [norm_model(x) for x in model_of(A, k_)]
